@@ -33,6 +33,31 @@ def mk_engine(chk):
         o.fields["reset"] = Builtin("ContextVar.reset", lambda tok: cell.__setitem__("v", tok[1]))
         return o
     e.ext_models.setdefault("contextvars.ContextVar", context_var)
+
+    # re.compile(pattern, flags) on CONCRETE strings: evaluated by CPython's own re (a pure function of
+    # its arguments); a match is modelled as the tuple (group 0, group 1, ...) so that m[i] and
+    # truthiness mean what they mean on a match object, no match is None.  Symbolic subjects are outside.
+    def re_compile(it, a, k):
+        import re as _re
+        from pyvc import SObj, ClassVal, Builtin
+        from pyvc.values import Unsupported
+        flags = 0
+        for fl in a[1:]:
+            flags |= fl if isinstance(fl, int) else 0
+        if not isinstance(a[0], str):
+            raise Unsupported("re.compile of a symbolic pattern")
+        pat = _re.compile(a[0], flags)
+
+        def mk(meth):
+            def run(subject, *rest):
+                if not isinstance(subject, str):
+                    raise Unsupported("regular expression applied to a symbolic string")
+                m = getattr(pat, meth)(subject, *rest)
+                return None if m is None else (m.group(0), *m.groups())
+            return Builtin("re.Pattern." + meth, run)
+        return SObj(ClassVal("Pattern", builtin=True), {"pattern": a[0], "fullmatch": mk("fullmatch"), "match": mk("match"), "search": mk("search")})
+    e.ext_models.setdefault("re.compile", re_compile)
+    e.ext_models.setdefault("re.DOTALL", 16)
     return e
 
 
